@@ -1,5 +1,8 @@
 use serde::{Deserialize, Serialize};
 #[cfg(feature = "verif-hooks")]
+#[allow(unused_imports)]
+use std::sync::atomic::*;
+#[cfg(feature = "verif-hooks")]
 use crate::verif::AtomicU64;
 #[cfg(feature = "verif-hooks")]
 use std::sync::atomic::Ordering;
